@@ -4,6 +4,7 @@ from ..facts import AST, VISITOR_CRATE, walk, strip_transparent, local_of, field
 from ..engine import Rule
 from ..cfg import calls, callee_name, place_of
 from . import common as C
+from .hirtext import expr_str
 from .mirflow import Flow, mut_events, self_field_of, TRANSPARENT
 from .influence import flow_of, controlling_fields, controlling_deps
 from . import c07
@@ -326,9 +327,56 @@ def hir_mir_registry_writers(ctx):
     return r
 
 
+def r09_5(ctx):
+    r = Rule("R09.5", "the registries of things to emit (imports, helpers, pending declarations) start empty and are filled only by the JSX builders and what they call",
+             "a registry that is non-empty without JSX makes the module hook add imports / helpers to code that has no JSX")
+    from . import c10
+    from .state import access_index, root_path
+    # (a) the constructor gives each registry its empty value
+    news = [b for b in ctx.facts.hir if b["crate"] == VISITOR_CRATE and not b.get("mac") and b.get("impl_self", "").startswith("VueJsxTransformVisitor")
+            and not b.get("impl_trait") and b["output"].startswith("VueJsxTransformVisitor") ]
+    for nb in news:
+        r.saw(nb["path"])
+        for n in walk(nb["body"]):
+            if n.get("k") == "Struct" and (n.get("adt") or "").startswith("VueJsxTransformVisitor"):
+                fs = {f["name"]: f["e"] for f in n["fields"]}
+                for reg in REGISTRIES:
+                    if reg not in fs:
+                        r.ob("%s: %s starts empty" % (nb["name"], reg), None, C.mloc(nb, n), "field not initialised in this literal")
+                        continue
+                    e = strip_transparent(fs[reg])
+                    lo = local_of(e)
+                    if lo is not None:      # `let x = None; .. field: x`
+                        from .hirflow import HirIndex
+                        bnd = HirIndex(nb).binding.get(lo[1])
+                        if bnd and bnd.get("kind") == "let" and bnd.get("init") is not None and not bnd.get("path"):
+                            e = strip_transparent(bnd["init"])
+                    t = expr_str(e)
+                    empty = t in ("None", "default()", "new()", "Default::default()") or (e.get("k") == "Call" and (e.get("callee") or "").endswith(("::default", "::new")) and not e["args"]) \
+                        or (e.get("k") == "Path" and e["res"].get("variant") == "None")
+                    r.ob("%s: %s starts empty" % (nb["name"], reg), empty, C.mloc(nb, fs[reg]),
+                         t[:60] if empty else "`%s` is initialised with `%s`: it is emitted by the module hook for every module, JSX or not" % (reg, t[:60]))
+    # (b) every later writer is a JSX builder or reached only from one; the hooks that drain / restore pending declarations are R06.1's business
+    idx = access_index(ctx)
+    lowering = c10._lowering_bodies(ctx)
+    for reg in REGISTRIES:
+        for a in idx.get(reg, []):
+            rp = root_path(a["body"])
+            if rp.endswith("::new") or not (a["kind"] == "store" or (a["kind"] == "call" and a["mut"])):
+                continue
+            in_low = (a["body"]["crate"], rp) in lowering
+            in_hook = "VisitMut>::visit_mut_" in rp
+            if in_low or in_hook:
+                continue
+            r.ob("%s is written only by JSX lowering code" % reg, False, C.mloc(a["body"], a["node"]),
+                 "written in %s, which is not reached from the JSX builders" % rp)
+        r.ob("%s: writers outside the constructor are JSX builders (or the draining hooks)" % reg, True, "-", "%d access(es) examined" % len(idx.get(reg, [])))
+    return r
+
+
 def rules(ctx):
     from . import c06
-    out = [r09_1, r09_2, r09_3, c07.r07_3, c06.r06_1]
+    out = [r09_1, r09_2, r09_3, r09_5, c07.r07_3, c06.r06_1]
     if ctx.tier == "thorough":
         out.append(hir_mir_registry_writers)
     try:
